@@ -204,6 +204,10 @@ impl Model {
                 if ctx.in_propagation() {
                     if *res != Err(ObsErr::CurrentlyStabilising) {
                         viol!(self, at, "C07", "read-in-propagation", "observer {} read from {:?} returned {:?} instead of CurrentlyStabilising", oid, ctx, res);
+                        if res.is_ok() {
+                            // a side effect of a node function was shown a value in mid-propagation
+                            viol!(self, at, "C02", "value-shown-during-propagation", "observer {} read from {:?} handed out {:?} while the stabilise was still propagating", oid, ctx, res);
+                        }
                     }
                     self.cov.reads_checked += 1;
                 } else {
